@@ -28,6 +28,7 @@ type Engine struct {
 	candEnable      map[string]Term
 	kindIDs         map[string]int64
 	candParent      map[string]string
+	anyFuncs        map[string]*ssa.Function
 	allowLoopInline bool
 	funcs           map[string]*ssa.Function // specKey -> function
 	loadSecs        float64
@@ -75,6 +76,15 @@ func loadEngine(repo string, overlay map[string][]byte) (*Engine, error) {
 		if e.inScope(fn) {
 			if fn.TypeParams().Len() > 0 && len(fn.TypeArgs()) == 0 {
 				continue // generic template; instantiations are verified
+			}
+			openInst := false
+			for _, ta := range fn.TypeArgs() {
+				if _, isTP := ta.(*types.TypeParam); isTP {
+					openInst = true
+				}
+			}
+			if openInst {
+				continue
 			}
 			if pf := prog.Fset.Position(fn.Pos()).Filename; strings.HasSuffix(pf, ".pb.go") && !strings.HasPrefix(fn.Name(), "Get") {
 				continue
@@ -124,7 +134,20 @@ func (e *Engine) typesPkgsByName(name string) []*types.Package {
 
 // lookupFunc finds pkg.Name or pkg.Type.Method.
 func (e *Engine) lookupFunc(pkg, name string) *ssa.Function {
-	return e.funcs[pkg+"."+name]
+	if fn := e.funcs[pkg+"."+name]; fn != nil {
+		return fn
+	}
+	// functions outside /repo (trusted contracts), by package name
+	if e.anyFuncs == nil {
+		e.anyFuncs = map[string]*ssa.Function{}
+		for fn := range allFuncs(e.prog) {
+			if fn.Synthetic != "" || fn.Parent() != nil {
+				continue
+			}
+			e.anyFuncs[specKey(fn)] = fn
+		}
+	}
+	return e.anyFuncs[pkg+"."+name]
 }
 
 // ---- root verification ----
@@ -292,6 +315,13 @@ func (f *Frame) nameIndex() map[string][]nameRef {
 // resolveLocal finds the SSA value for a source variable name as seen at the
 // header of loop l (nil loop: at function exit).
 func (f *Frame) resolveLocal(l *Loop, name string, st *State, phi map[*ssa.Phi]Val) (Val, bool) {
+	if name == "_i" && l != nil {
+		for _, p := range l.phis {
+			if p.Comment == "rangeindex" {
+				return scalar(types.Typ[types.Int], Add(phi[p].one(), One)), true
+			}
+		}
+	}
 	// header phis of this loop, then of enclosing loops
 	if l != nil {
 		for _, p := range l.phis {
